@@ -4,6 +4,9 @@ import json, os, sys
 HERE = os.path.dirname(os.path.dirname(os.path.abspath(__file__)))
 sys.path.insert(0, HERE)
 meta = json.load(open(os.path.join(HERE, "tools", "manifest_meta.json")))
+import glob
+for f in sorted(glob.glob(os.path.join(HERE, "tools", "meta.d", "*.json"))):
+    meta["checks"][os.path.basename(f)[:-5].upper()] = json.load(open(f))
 props = [json.loads(l) for l in open(os.path.join(HERE, "properties.jsonl"))]
 checks, na = [], []
 for p in props:
